@@ -37,18 +37,29 @@ class VM:
     def __init__(self):
         self.defs = {}      # derived base name -> (axis, index, value on that plane, parent base)
         self.undecided = None
+        self.scal = {}      # scalar locals bound to symbolic lengths (n_bins = x.shape[2], half = n_bins - 1)
+        self.cur_len = None
 
     def item(self, node):
         if isinstance(node, ast.Constant) and node.value is Ellipsis:
             return 'ellipsis'
         if isinstance(node, ast.Slice):
             vals = []
-            for p in (node.lower, node.upper, node.step):
+            for k_, p in enumerate((node.lower, node.upper, node.step)):
                 if p is None:
                     vals.append(None)
                 else:
                     c = const_value(p)
                     if not isinstance(c, int):
+                        if k_ < 2 and isinstance(p, ast.UnaryOp) and isinstance(p.op, ast.USub):
+                            e_ = self.scalar(p.operand)
+                            if e_ is not None and self.cur_len is not None:
+                                # x[-E:] counts from the end only when E > 0: for E == 0 the bound is -0 == 0 and the slice starts at the beginning
+                                if self.min_value(e_) <= 0:
+                                    raise NegZero('the slice bound `%s` is -0 = 0 when `%s` is 0 (%s with one bin only: a window shorter than two bins): the slice then starts at the beginning '
+                                                  'of the axis instead of selecting nothing, and the symmetrised array gets the centre bin twice' % (unparse(p), unparse(p.operand), e_))
+                                vals.append(self.cur_len - e_)
+                                continue
                         raise ValueError('non-constant slice bound `%s`' % unparse(p))
                     vals.append(c)
             return ('slice',) + tuple(vals)
@@ -57,6 +68,29 @@ class VM:
             return ('int', c)
         raise ValueError('index `%s`' % unparse(node))
 
+    def scalar(self, e):
+        """Linear form of a scalar expression over the symbolic lengths (names bound from `.shape` unpacking / arithmetic), or None."""
+        c = const_value(e)
+        if isinstance(c, int) and not isinstance(c, bool):
+            return K(c)
+        if isinstance(e, ast.Name):
+            return self.scal.get(e.id)
+        if isinstance(e, ast.BinOp) and isinstance(e.op, (ast.Add, ast.Sub)):
+            l, r = self.scalar(e.left), self.scalar(e.right)
+            return None if l is None or r is None else (l + r if isinstance(e.op, ast.Add) else l - r)
+        return None
+
+    def min_value(self, lin):
+        """Smallest value of a linear form when every symbolic length is >= 1 (None-safe: unknown atoms count as unbounded below)."""
+        total = lin.d.get('1', 0)
+        for k_, v_ in lin.d.items():
+            if k_ == '1':
+                continue
+            if v_ < 0:
+                return -10 ** 9
+            total += v_          # the atom is at least 1
+        return total
+
     def ev(self, e, env):
         if isinstance(e, ast.Name):
             if e.id not in env:
@@ -64,7 +98,19 @@ class VM:
             return env[e.id]
         if isinstance(e, ast.Subscript):
             base = self.ev(e.value, env)
-            items = [self.item(x) for x in (e.slice.elts if isinstance(e.slice, ast.Tuple) else [e.slice])]
+            raw = e.slice.elts if isinstance(e.slice, ast.Tuple) else [e.slice]
+            items = []
+            n_real = sum(1 for x in raw if not (isinstance(x, ast.Constant) and x.value is Ellipsis))
+            pos = 0
+            for x in raw:
+                if isinstance(x, ast.Constant) and x.value is Ellipsis:
+                    pos += base.ndim() - n_real
+                    self.cur_len = None
+                else:
+                    self.cur_len = base.lens[pos] if pos < len(base.lens) else None
+                    pos += 1
+                items.append(self.item(x))
+            self.cur_len = None
             return base.index(items)
         if isinstance(e, ast.Attribute) and e.attr == 'T':
             return self.ev(e.value, env).transpose()
@@ -104,6 +150,14 @@ class VM:
         ret = None
         for s in fi.body():
             if isinstance(s, ast.Assign) and isinstance(s.targets[0], ast.Name):
+                sc_ = self.scalar(s.value) if not isinstance(s.value, ast.Name) or s.value.id in self.scal else None
+                if sc_ is not None and not (isinstance(s.value, ast.Name) and s.value.id in env):
+                    self.scal[s.targets[0].id] = sc_
+                    continue
+                if isinstance(s.value, ast.Subscript) and isinstance(s.value.value, ast.Attribute) and s.value.value.attr == 'shape' and isinstance(s.value.value.value, ast.Name) and \
+                        s.value.value.value.id in env and isinstance(const_value(s.value.slice), int):
+                    self.scal[s.targets[0].id] = env[s.value.value.value.id].lens[const_value(s.value.slice)]
+                    continue
                 try:
                     env[s.targets[0].id] = self.ev(s.value, env)
                 except ValueError:
@@ -111,6 +165,12 @@ class VM:
                         continue
                     raise
             elif isinstance(s, ast.Assign) and isinstance(s.targets[0], ast.Tuple):
+                # n_a, n_b, n_bins = x.shape : the names are the symbolic lengths of x
+                if isinstance(s.value, ast.Attribute) and s.value.attr == 'shape' and isinstance(s.value.value, ast.Name) and s.value.value.id in env and \
+                        len(s.targets[0].elts) == env[s.value.value.id].ndim():
+                    for t_, ln_ in zip(s.targets[0].elts, env[s.value.value.id].lens):
+                        if isinstance(t_, ast.Name):
+                            self.scal[t_.id] = ln_
                 continue
             elif isinstance(s, ast.Assign) and isinstance(s.targets[0], ast.Subscript) and isinstance(s.targets[0].value, ast.Name):
                 nm = s.targets[0].value.id
@@ -133,12 +193,19 @@ class VM:
         return ret
 
 
+class NegZero(Exception):
+    pass
+
+
 def a1_symmetrize(ctx):
     fi = ctx.repo.func(CCG, '_symmetrize_correlograms')
     N, Lb = L('N'), L('B')
     vm = VM()
     try:
         res = vm.run(fi, {fi.params[0]: View.of('c', [N, N, Lb])})
+    except NegZero as e:
+        ctx.violated('C15.A1', fi, 'slice bound -0', str(e))
+        return
     except ValueError as e:
         ctx.undecided('C15.A1', fi, 'construct outside the index-map domain: %s' % e)
         return
